@@ -1,13 +1,73 @@
 (* Properties/C12.v — DHCP replies segregate captured clients and conform to the
    transaction.  Only statements, each closed by [exact] of a lemma proved in
-   Proofs/DHCP*.v. *)
-From PV Require Import Base.Prelude Model.DHCP Spec.DHCP Spec.DHCPCheck Proofs.DHCP Proofs.DHCPRefuted.
+   Proofs/DHCP*.v.
+
+   Quantification as in C11.v: every configuration c (operating mode, home and
+   netfilter prefixes, addresses) subject to [cfg_ok c] where stated (the netfilter
+   gateway is the host's own address, as the property words it), every history h,
+   every step t of its trace, on the model of the REPAIRED code (FIXLOG.md). *)
+From PV Require Import Base.Prelude Base.Text Model.DHCP Model.DHCPShow Spec.DHCP Spec.DHCPCheck
+  Proofs.DHCP Proofs.DHCPInv Proofs.DHCPReply Proofs.DHCPRefuted.
+Open Scope list_scope.
 Open Scope N_scope.
 
-(* Still false of the faithful model (finding c12-prl-router-before-mask, DESIGN #18,
-   layer_dhcp4.go AppendOptions): the router option precedes the subnet mask when the
-   client's parameter request list says so. *)
+(* Every OFFER and ACK carries an address inside the subnet selected by the client's
+   capture state at that moment, with that subnet's router (our address when captured,
+   the real router otherwise), DNS (family DNS / configured DNS), mask, our server id,
+   the lease time, and echoes xid and chaddr. *)
+Theorem C12_reply_subnet : forall c h t m r,
+  cfg_ok c -> In t (trace c (init c) h) -> op_msg (t_op t) = Some m -> t_reply t = Some r ->
+  c12_subnet c (t_pre t) m r = true.
+Proof. exact subnet_all. Qed.
+Print Assumptions C12_reply_subnet.
+
+(* The subnet mask precedes the router option — FALSE in general (finding
+   c12-prl-router-before-mask, DESIGN #18, AppendOptions in layer_dhcp4.go, owned by
+   the ENCODE cluster): witness ... *)
 Theorem C12_mask_first_refuted : exists c h t r,
   In t (trace c (init c) h) /\ t_reply t = Some r /\ r_type r = ROffer /\ c12_mask_first r = false.
 Proof. exact mask_first_refuted. Qed.
 Print Assumptions C12_mask_first_refuted.
+
+(* ... and true whenever the client's parameter request list does not name the
+   router (3) before the mask (1): exactly the complement of the recorded class. *)
+Theorem C12_mask_first_partial : forall c h t m r,
+  In t (trace c (init c) h) -> op_msg (t_op t) = Some m -> t_reply t = Some r ->
+  known_c12_prl m = false -> c12_mask_first r = true.
+Proof. exact mask_first_partial. Qed.
+Print Assumptions C12_mask_first_partial.
+
+(* An ACK confirms the address offered in this transaction (same client id, same
+   xid) or the client's current lease. *)
+Theorem C12_ack_matches : forall c h t m r,
+  In t (trace c (init c) h) -> op_msg (t_op t) = Some m -> t_reply t = Some r ->
+  c12_ack_matches (t_pre t) m r = true.
+Proof. exact ack_matches_all. Qed.
+Print Assumptions C12_ack_matches.
+
+(* Requests that cannot be honoured (another server selected; unknown, freed or
+   mismatching lease; address outside the client's subnet) are never ACKed. *)
+Theorem C12_no_ack_when : forall c h t m,
+  In t (trace c (init c) h) -> op_msg (t_op t) = Some m ->
+  c12_no_ack_when c (t_pre t) m (t_reply t) = true.
+Proof. exact no_ack_when_all. Qed.
+Print Assumptions C12_no_ack_when.
+
+(* Non-vacuity. *)
+Example C12_cfg_ok_example : cfg_ok wcfg.
+Proof. reflexivity. Qed.
+Print Assumptions C12_cfg_ok_example.
+
+Example C12_live_example :
+  map (fun t => match t_reply t with Some r => (r_type r, r_yi r) | None => (RNak, 0) end)
+      (trace wcfg (init wcfg) (with_ch0 wlive))
+  = [(ROffer, 3232235522); (RAck, 3232235522); (RNak, 0); (ROffer, 3232235532); (RAck, 3232235532); (RAck, 3232235522)].
+Proof. exact live_example. Qed.
+Print Assumptions C12_live_example.
+
+Example C12_nak_example :
+  let t := hd (mkT (init wcfg) ch0 (OTick 0) None (init wcfg)) (trace wcfg (init wcfg) (with_ch0 w12_unknown)) in
+  cannot_honour wcfg (t_pre t) (dmsg0 c3 0 (Some ipA) us) = true /\
+  option_map r_type (t_reply t) = Some RNak.
+Proof. exact nak_example. Qed.
+Print Assumptions C12_nak_example.
